@@ -58,6 +58,16 @@ func followCases() []bnet.SyncCase {
 
 func cases(maxSize int, quick bool) []bnet.SyncCase {
 	var cs []bnet.SyncCase
+	if maxSize >= 1 {
+		// one failing database write (first round of the sync, a middle one, the target) with honest peers: the sync is
+		// retried and converges
+		for _, peers := range [][]string{{"honest"}, {"honest", "honest"}} {
+			for _, fw := range []uint64{3, 4, 5} {
+				cs = append(cs, bnet.SyncCase{H0: 2, Target: 5, Peers: peers, Height: 5, FailWrite: fw})
+				cs = append(cs, bnet.SyncCase{H0: 2, Target: 0, Peers: peers, Height: 5, FailWrite: fw})
+			}
+		}
+	}
 	for _, ms := range multisets(maxSize) {
 		for _, h0 := range []uint64{0, 2} {
 			for _, tgt := range []uint64{h0 + 1, h0 + 3, 0} {
